@@ -14,14 +14,14 @@ pub static DEF: CheckDef = CheckDef {
     id: "C01",
     run: run_c01,
     replay: replay_c01,
-    rule: "layer 1: every register-only encoding, translated once and called for all (A, operand, F) / all 2^16 / all SP x e8 values; layer 2: every memory-accessing encoding (loads/stores via BC/DE/HL/HL+-, LDH, LD (nn), ALU (HL), INC/DEC (HL), LD (HL),n, CB (HL), PUSH/POP, CALL/RET/RETI/RST, LD (nn),SP) with the pointer register swept over all 65536 values (quick: every region boundary +-2 plus every 5th address); layer 3: proptest-generated straight-line blocks of 1..32 instructions closed by every kind of terminator, placed in bank 0, in a switchable bank, ending on the last byte of a region or running through 0x4000, from initial cycles 0 or 5; layer 4: every encoding (with three immediate values) behind context prefixes that bring the block's cycle count to every value around the nibble carries 16 and 32 - from pending counts 0 and 5, ending in a 1-, 2- or 3-cycle instruction - so that emitted code which depends on host flags or scratch registers left by the preceding instruction shows. layer 5: through the emulator's own dispatch (C03's restart probe): the translation area filled to every level from 4.5 MiB up, then a whole bank of DAA - the longest translation there is - and bank 1 at the address whose bank-2 block made the area restart, compared with the interpreter build on registers and serial bytes. Each case of layers 1-4 runs interpreter::run_code_block on one core and translate+call on an identical core; compared: AF BC DE HL SP PC as full 32-bit fields, status class, ordered bus-write trace, all RAM/I-O/bank/DMA/serial state; every 8th translated call is entered through a shim that plants sentinels in the host's callee-saved registers and checks them and the stack pointer on return. Non-trivial = the block changes something besides PC; distinct by hash(block bytes, placement, initial registers) for generated cases, by construction for enumerated tuples.",
+    rule: "layer 1: every register-only encoding, translated once and called for all (A, operand, F) / all 2^16 / all SP x e8 values; layer 2: every memory-accessing encoding (loads/stores via BC/DE/HL/HL+-, LDH, LD (nn), ALU (HL), INC/DEC (HL), LD (HL),n, CB (HL), PUSH/POP, CALL/RET/RETI/RST, LD (nn),SP) with the pointer register swept over all 65536 values (quick: every region boundary +-2 plus every 5th address); layer 3: proptest-generated straight-line blocks of 1..32 instructions closed by every kind of terminator, placed in bank 0, in a switchable bank, ending on the last byte of a region or running through 0x4000, from initial cycles 0 or 5; layer 4: every encoding (with three immediate values) behind context prefixes that bring the block's cycle count to every value around the nibble carries 16 and 32 - from pending counts 0 and 5, ending in a 1-, 2- or 3-cycle instruction - so that emitted code which depends on host flags or scratch registers left by the preceding instruction shows. layer 5: through the emulator's own dispatch (C03's restart probe): the translation area filled to every level from 4.5 MiB up, then a whole bank of DAA - the longest translation there is - and bank 1 at the address whose bank-2 block made the area restart, compared with the interpreter build on registers and serial bytes. layer 6: the generated blocks of layer 3 stepped by Core::run_code_block on the jit build and on the interpreter build (pending cycles 0 or 5 on entry), the complete state compared afterwards including the device positions - time lost on the way to the devices is I/O state. Each case of layers 1-4 runs interpreter::run_code_block on one core and translate+call on an identical core; compared: AF BC DE HL SP PC as full 32-bit fields, status class, ordered bus-write trace, all RAM/I-O/bank/DMA/serial state; every 8th translated call is entered through a shim that plants sentinels in the host's callee-saved registers and checks them and the stack pointer on return. Non-trivial = the block changes something besides PC; distinct by hash(block bytes, placement, initial registers) for generated cases, by construction for enumerated tuples.",
     assumptions: &[
         "the interpreter is the reference (itself pinned to the SM83 by C05/C06)",
         "F low nibble 0 and register fields <= 0xFFFF on entry; no undefined opcode inside a block",
         "cartridge MBC1+32KiB RAM, 8 ROM banks; unrelated ROM bytes are HALT",
         "status 0x80 left in r14b by BIT/rotate templates is treated like 0 by Core::run_code_block and is not a divergence",
     ],
-    required_classes: &["l1-alu", "l2-ptr", "l3-blocks", "l4-context", "term-ret", "term-call", "term-jr", "term-halt", "place-bankN", "place-region-end", "ptr-io", "ptr-rom", "restart-probe"],
+    required_classes: &["l1-alu", "l2-ptr", "l3-blocks", "l4-context", "term-ret", "term-call", "term-jr", "term-halt", "place-bankN", "place-region-end", "ptr-io", "ptr-rom", "restart-probe", "l6-entered-with-pending-cycles"],
     exhaustive: false,
 };
 
@@ -197,7 +197,10 @@ pub fn run_block(p: &mut JPair, c: &BlockCase, scope: Scope) -> Result<RunInfo, 
     p.a.trace_enable(false);
     let ta: Vec<(u16, u8)> = p.a.trace_take().iter().filter(|t| t.0 == 1).map(|t| (t.1, t.2)).collect();
     let bank_after_a = p.a.rom_bank();
-    let self_bank_switch = bank_after_a != p.rom_bank && (c.pc >= 0x4000 || crosses);
+    // a block in (or running into) the switchable bank that writes a bank-selecting register:
+    // the known finding, also when a second write has put the old bank back by the end
+    let wrote_bank_regs = ta.iter().any(|(a, _)| (0x2000..0x8000).contains(a));
+    let self_bank_switch = (bank_after_a != p.rom_bank || wrote_bank_regs) && (c.pc >= 0x4000 || crosses);
     // translated
     p.b.set_regs(&c.regs);
     if p.b.cache_used() > 0x400000 {
@@ -1192,6 +1195,96 @@ fn run_c01(rec: &mut Rec) {
         let cases = rec.ctx.tier.pick(40_000u32, 3_000_000);
         run_generated_blocks(rec, Scope::Effect, cases);
     }
+    // layer 6: the same generator through the emulator's own step, device time included
+    if rec.ctx.shard == 2 || rec.ctx.nshards < 3 {
+        run_stepped_blocks(rec, rec.ctx.tier.pick(3000u32, 200_000));
+    }
+}
+
+/// Layer 6: generated blocks through the emulator's own step (Core::run_code_block of the jit
+/// build against the interpreter build): dispatch, the block, the device catch-up with the
+/// cycles the block reports plus whatever was pending, the interrupt check. Compared: the
+/// complete machine state including the device positions (divider, TIMA, LCD line and dot),
+/// so that time lost or gained on the way to the devices shows as I/O state.
+fn run_stepped_blocks(rec: &mut Rec, cases: u32) {
+    use crate::mach::i;
+    let rom = c01_rom();
+    let mut jit = j::M::new(&rom);
+    let mut int = i::M::new(&rom);
+    jit.fill_ram(7);
+    int.fill_ram(7);
+    let snap = int.snapshot(vec![(0x0000u16, 0x0au8)]);
+    let strat = gen_block_strategy();
+    fn to_json(g: &GenBlock) -> Value {
+        let mut v = block_json(&materialize(g));
+        v["kind"] = json!("stepped-block");
+        v
+    }
+    let cell = std::cell::RefCell::new((jit, int));
+    run_generated(rec, "l6", cases, strat, to_json, |g, rec, counting| {
+        let c = materialize(g);
+        let mut case = block_json(&c);
+        case["kind"] = json!("stepped-block");
+        if counting {
+            rec.current(&case.to_string());
+            rec.eval(1);
+            rec.class("l6-stepped-blocks", 1);
+            if c.regs.cycles != 0 {
+                rec.class("l6-entered-with-pending-cycles", 1);
+            }
+        }
+        let mut pair = cell.borrow_mut();
+        let (jit, int) = &mut *pair;
+        stepped_block(jit, int, &snap, &c)
+    });
+}
+
+fn stepped_block(jit: &mut j::M, int: &mut crate::mach::i::M, snap: &Snapshot, c: &BlockCase) -> CaseResult {
+    jit.restore(snap);
+    int.restore(snap);
+    // fresh translations for every case: the code placed at an address changes from case to case
+    jit.cache_reset();
+    for m in [&mut *jit as &mut dyn Emu, &mut *int as &mut dyn Emu] {
+        for (k, b) in c.code.iter().enumerate() {
+            let a = c.pc as usize + k;
+            if a < 0x4000 {
+                m.rom()[a] = *b;
+            } else if a < 0x8000 {
+                let bank = m.rom_bank();
+                m.rom()[bank * 0x4000 + (a & 0x3fff)] = *b;
+            }
+        }
+        for &(a, v) in &c.cells {
+            m.write(a, v);
+        }
+        m.set_regs(&c.regs);
+        m.set_ime(crate::mach::IME_DISABLED);
+        m.set_run_state(crate::mach::RUN);
+    }
+    int.trace_enable(true);
+    let _ = int.trace_take();
+    let ri = guarded(|| int.step_block());
+    int.trace_enable(false);
+    let wrote_bank_regs = int.trace_take().iter().any(|t| t.0 == 1 && (0x2000..0x8000).contains(&t.1));
+    let rj = guarded(|| jit.step_block());
+    match (ri, rj) {
+        (Err(_), _) => Ok(()), // the reference refused (ran into unmapped memory / an undefined opcode)
+        (Ok(()), Err(m)) => Err(Fail::new("stepped-jit-panic", format!("block {} at {:#06x} from {}: the jit build's step panicked: {}", hex(&c.code), c.pc, fmt_regs(&c.regs), m))),
+        (Ok(()), Ok(())) => {
+            let end = c.pc as usize + c.code.len();
+            if (c.pc >= 0x4000 || end > 0x4000) && (wrote_bank_regs || int.rom_bank() != jit.rom_bank() || int.rom_bank() != 1) {
+                // the block switched its own bank: the known finding of layers 1-4
+                return Ok(());
+            }
+            match diff_state(&*jit, &*int, &[]) {
+                None => Ok(()),
+                Some(d) => {
+                    let sig = if d.contains("divider") || d.contains("tima") || d.contains("lcd_") || d.contains("stat") { "stepped-device-time" } else { "stepped-state" };
+                    Err(Fail::new(sig, format!("block {} at {:#06x} from {} stepped by Core::run_code_block: the jit build and the interpreter build differ afterwards: {}", hex(&c.code), c.pc, fmt_regs(&c.regs), d)))
+                }
+            }
+        }
+    }
 }
 
 /// C03's restart probe judged on the architectural effect of the two blocks (registers,
@@ -1217,6 +1310,25 @@ fn restart_probe_effect(rec: &mut Rec, target: usize) {
 }
 
 fn replay_c01(case: &Value, rec: &mut Rec) {
+    if case.get("kind").and_then(|k| k.as_str()) == Some("stepped-block") {
+        if let Some(c) = block_from_json(case) {
+            use crate::mach::i;
+            let rom = c01_rom();
+            let mut jit = j::M::new(&rom);
+            let mut int = i::M::new(&rom);
+            jit.fill_ram(7);
+            int.fill_ram(7);
+            let snap = int.snapshot(vec![(0x0000u16, 0x0au8)]);
+            rec.eval(1);
+            rec.current(&case.to_string());
+            if let Err(f) = stepped_block(&mut jit, &mut int, &snap, &c) {
+                rec.violation(&f.sig, case.clone(), f.detail);
+            }
+        } else {
+            rec.inconclusive("replay case is not a block");
+        }
+        return;
+    }
     if case.get("kind").and_then(|k| k.as_str()) == Some("restart-probe-effect") {
         restart_probe_effect(rec, (case.get("target").and_then(|v| v.as_u64()).unwrap_or(0x500000) as usize).min(0x7f0000));
         return;
